@@ -236,6 +236,29 @@ func sideEffect(q *uint64, v uint64) {
 func sideEffect0() {
 }
 
+func mkSlice(v uint64) []uint64 {
+	t := make([]uint64, 3)
+	t[1] = v + 1
+	return t
+}
+
+func mkH(v uint64) *H {
+	return &H{f: v + 1, g: 5}
+}
+
+func takeH(h *H) uint64 {
+	return h.f + uint64(h.g)
+}
+
+func addPair(a uint64, b uint64) uint64 {
+	return a*3 + b
+}
+
+type Outer struct {
+	in H
+	n  uint64
+}
+
 `
 
 // OutsidePackage builds the package for one atom: one host function per position and
